@@ -5,13 +5,13 @@ package corebgp
 
 // ---- configuration validation (C20) ----
 
-//@ func peerOptions.validate returns (err)
+//@ func peerOptions.validate (p) returns (err)
 //@   ensures [nil_iff] (err == nil) == ((p.holdTime == 0 || p.holdTime >= 3000000000) && 1 <= p.port && p.port <= 65535)
 
-//@ func PeerConfig.validate returns (err)
+//@ func PeerConfig.validate (p, opts) returns (err)
 //@   ensures [nil_iff] (err == nil) == (addrIsValid(p.RemoteAddress) && (!addrIsValid(opts.localAddress) || addrIs4(opts.localAddress) == addrIs4(p.RemoteAddress)) && p.LocalAS != 0 && p.RemoteAS != 0)
 
-//@ func NewServer returns (s, err)
+//@ func NewServer (routerID) returns (s, err)
 //@   ensures [nil_iff] (err == nil) == addrIs4(routerID)
 //@   ensures [nil_on_error] err != nil ==> s == nil
 //@   ensures [fresh_server] err == nil ==> s != nil && fresh(s) && !s.serving && s.peers != nil && s.closeCh != nil && s.doneServingCh != nil && s.id == ((addr4byte(routerID, 0) * 256 + addr4byte(routerID, 1)) * 256 + addr4byte(routerID, 2)) * 256 + addr4byte(routerID, 3)
@@ -25,7 +25,7 @@ package corebgp
 // peer and, when that peer has a local address, its destination address equals it.
 // Everything else is closed; this function contains no Write and no plugin call
 // (frame: nwrites is not in its modifies clause).
-//@ func Server.handleInboundConn
+//@ func Server.handleInboundConn (s, conn)
 //@   requires serverObj(s) && conn != nil && !locked(s.mu)
 //@   requires [peers_well_formed] forall k :: has(s.peers, k) ==> s.peers[k] != nil && s.peers[k].closeCh != nil && s.peers[k].inConnCh != nil
 //@   ghostvar handed bool = false
@@ -49,7 +49,8 @@ package corebgp
 //@ callback funcPeerOption.apply:fn (p)
 //@   modifies *p
 
-//@ func newPeer returns (p)
+//@ func newPeer (config, id, plugin, options) returns (p)
+//@   local i #0 int
 //@   loop#0 invariant [slots] 0 <= i && i <= 2 && (forall k :: 0 <= k && k < i ==> p.transitionCh[k] != nil && p.errorCh[k] != nil && p.fsmState[k] == 0) && (forall k :: i <= k && k < 2 ==> p.fsmState[k] == 0) && !chanClosed(p.closeCh) && !chanClosed(p.doneCh) && chanCap(p.inConnCh) == 0 && (forall k :: 0 <= k && k < i ==> chanCap(p.transitionCh[k]) == 0 && chanCap(p.errorCh[k]) == 0)
 //@   ensures [fresh] p != nil && fresh(p) && p.config == config && p.id == id && p.plugin == plugin && p.options == options
 //@   ensures [channels] p.inConnCh != nil && p.closeCh != nil && p.doneCh != nil && p.startupDelayTimer != nil && p.transitionCh[0] != nil && p.transitionCh[1] != nil && p.errorCh[0] != nil && p.errorCh[1] != nil && fresh(p.closeCh) && fresh(p.doneCh)
@@ -57,7 +58,8 @@ package corebgp
 //@   ensures [rendezvous_channels] chanCap(p.transitionCh[0]) == 0 && chanCap(p.transitionCh[1]) == 0 && chanCap(p.errorCh[0]) == 0 && chanCap(p.errorCh[1]) == 0 && chanCap(p.inConnCh) == 0
 //@   ensures [not_started] !peerRunning(p) && !chanClosed(p.closeCh) && !chanClosed(p.doneCh) && !onceDone(p.closeOnce)
 
-//@ func Server.AddPeer returns (err)
+//@ func Server.AddPeer (s, config, plugin, opts) returns (err)
+//@   local ErrPeerAlreadyExists #1 error
 //@   ghostvar nLock int = 0
 //@   at call Lock set nLock = nLock + 1
 //@   ensures [one_critical_section] nLock <= 1 && (err == nil ==> nLock == 1)
@@ -77,7 +79,8 @@ package corebgp
 //@   ensures [others_untouched] forall k :: k != key ==> has(s.peers, k) == old(has(s.peers, k)) && (has(s.peers, k) ==> s.peers[k] == old(s.peers[k]))
 //@   ensures [started_iff_serving] err == nil ==> peerRunning(s.peers[key]) == s.serving
 
-//@ func Server.DeletePeer returns (err)
+//@ func Server.DeletePeer (s, ip) returns (err)
+//@   local ErrPeerNotExist #0 error
 //@   ghostvar nLock int = 0
 //@   at call Lock set nLock = nLock + 1
 //@   ensures [one_critical_section] nLock == 1
@@ -90,7 +93,8 @@ package corebgp
 //@   ensures [stopped_when_serving] old(has(s.peers, key)) && s.serving ==> !peerRunning(old(s.peers[key])) && chanClosed(old(s.peers[key]).closeCh)
 //@   ensures [others_untouched] forall k :: k != key ==> has(s.peers, k) == old(has(s.peers, k)) && (has(s.peers, k) ==> s.peers[k] == old(s.peers[k]))
 
-//@ func Server.GetPeer returns (c, err)
+//@ func Server.GetPeer (s, ip) returns (c, err)
+//@   local ErrPeerNotExist #0 error
 //@   ghostvar nLock int = 0
 //@   at call Lock set nLock = nLock + 1
 //@   ensures [one_critical_section] nLock == 1
@@ -100,7 +104,8 @@ package corebgp
 //@   ensures [missing] !has(s.peers, addrString(ip)) ==> err == ErrPeerNotExist
 //@   ensures [present] has(s.peers, addrString(ip)) ==> err == nil && c == s.peers[addrString(ip)].config
 
-//@ func Server.ListPeers returns (r)
+//@ func Server.ListPeers (s) returns (r)
+//@   local configs #0 []PeerConfig
 //@   ghostvar nLock int = 0
 //@   at call Lock set nLock = nLock + 1
 //@   ensures [one_critical_section] nLock == 1
@@ -111,7 +116,7 @@ package corebgp
 //@   ensures [one_per_peer] len(r) == mapLen(s.peers)
 //@   ensures [exactly_the_present_configs] forall k :: 0 <= k && k < len(r) ==> has(s.peers, rangekey(k)) && r[k] == s.peers[rangekey(k)].config
 
-//@ func Server.Close
+//@ func Server.Close (s)
 //@   requires serverObj(s) && !locked(s.mu) && (chanClosed(s.closeCh) == onceDone(s.closeOnce))
 //@   modifies locked(s.mu), chanClosed(s.closeCh), onceDone(s.closeOnce)
 //@   ensures [lock_released] !locked(s.mu)
@@ -123,17 +128,24 @@ package corebgp
 //@ pure stoppablePeers(s) = (forall k :: has(s.peers, k) ==> s.peers[k] != nil && peerStoppable(s.peers[k]) && s.peers[k].closeCh != s.doneServingCh) && (forall k1, k2 :: has(s.peers, k1) && has(s.peers, k2) && k1 != k2 ==> s.peers[k1] != s.peers[k2] && s.peers[k1].closeCh != s.peers[k2].closeCh)
 
 // Serve's deferred function: stop (and join) every registered peer under the lock.
-//@ func Server.Serve$1
+//@ func Server.Serve$1 ()
+//@   local s #0 *Server
 //@   loop#0 invariant [stopping] 0 <= rangepos && rangepos <= rangelen && locked(s.mu) && s.doneServingCh != nil && !chanClosed(s.doneServingCh) && stoppablePeers(s)
 
 // The listener goroutine: accept, hand every connection to handleInboundConn,
 // report the first Accept error unless the listeners are being closed.
-//@ func Server.Serve$2
+//@ func Server.Serve$2 (lis)
+//@   local closingListeners #0 chan struct{}
+//@   local lisErrCh #0 chan error
+//@   local lisWG #0 *sync.WaitGroup
+//@   local s #0 *Server
 //@   requires lis != nil && serverObj(s) && !locked(s.mu) && peersOK(s) && lisWG != nil && lisErrCh != nil && closingListeners != nil
 //@   loop#0 invariant [idle] !locked(s.mu) && peersOK(s)
 //@   modifies locked(s.mu), connClosed, wgCount(lisWG)
 
-//@ func Server.Serve returns (err)
+//@ func Server.Serve (s, listeners) returns (err)
+//@   local ErrServerClosed #0 error
+//@   local peer #0 *peer
 //@   requires serverObj(s) && !locked(s.mu) && (chanClosed(s.closeCh) == onceDone(s.closeOnce))
 //@   requires [fresh_or_finished] chanClosed(s.doneServingCh) || !s.serving
 // (life cycle of the registry: until the server has served or been closed, no registered peer has
@@ -153,6 +165,6 @@ package corebgp
 //@   ensures [lock_released] !locked(s.mu)
 //@   ensures [not_serving_afterwards] !refused ==> !s.serving && chanClosed(s.doneServingCh)
 
-//@ func funcPeerOption.apply
+//@ func funcPeerOption.apply (f, p)
 //@   requires f.fn != nil
 //@   modifies *p
